@@ -1,6 +1,6 @@
 (* Conformance of Packet.encode with the specification-derived encoder, and binary
    reconstruction: deconstruct = (subst, leaves), reconstruct (subst v) (leaves v) = v. *)
-From VT Require Import Base.PyStrProofs Codec.Packet Codec.SpecCodec.
+From VT Require Import Base.PyStrProofs Codec.JsonProofs Codec.PacketProofs Codec.Packet Codec.SpecCodec.
 From Coq Require Import Lia ZifyBool ZifyN.
 Open Scope N_scope.
 
@@ -196,4 +196,155 @@ Corollary recon_decon v : ph_free v = true ->
 Proof.
   intro H. rewrite decon_nil. cbn [fst snd].
   pose proof (recon_subst v H [] []) as R. cbn [List.length app] in R. rewrite app_nil_r in R. exact R.
+Qed.
+
+(* ---- the specification-derived decoder reads the encoder's frames ---- *)
+Lemma take_digits_app a rest : forallb adigit a = true ->
+  match rest with [] => True | x :: _ => adigit x = false end ->
+  take_digits (a ++ rest) = (a, rest).
+Proof.
+  intros Ha Hr. induction a as [|c a IH]; cbn [app].
+  - destruct rest as [|x b]; [reflexivity|]. cbn [take_digits].
+    change (ascii_digit x) with (adigit x). rewrite Hr. reflexivity.
+  - cbn [forallb] in Ha. apply andb_true_iff in Ha as [Hc Ha].
+    cbn [take_digits]. change (ascii_digit c) with (adigit c). rewrite Hc, (IH Ha). reflexivity.
+Qed.
+
+Lemma take_until_app c a rest : (forall x, In x a -> x <> c) ->
+  take_until c (a ++ c :: rest) = (a, Some rest).
+Proof.
+  intro H. induction a as [|x a IH]; cbn [app take_until].
+  - rewrite N.eqb_refl. reflexivity.
+  - destruct (N.eqb_spec x c) as [E|E]; [exfalso; apply (H x); [left; reflexivity|exact E]|].
+    rewrite IH; [reflexivity|]. intros y Hy. apply H. right; exact Hy.
+Qed.
+
+Lemma ascii_val_app s c : ascii_val (s ++ [c]) = ascii_val s * 10 + (c - 48).
+Proof. unfold ascii_val. rewrite fold_left_app. reflexivity. Qed.
+
+Lemma ascii_val_digits fuel : forall n, n < pow10 (S fuel) -> ascii_val (digits_fuel fuel n) = n.
+Proof.
+  induction fuel as [|f IH]; intros n H; cbn [digits_fuel].
+  - cbn in H. rewrite N.mod_small by lia. unfold ascii_val. cbn [fold_left]. lia.
+  - destruct (n <? 10) eqn:E.
+    + unfold ascii_val. cbn [fold_left]. lia.
+    + rewrite ascii_val_app, IH.
+      * pose proof (N.mod_upper_bound n 10). pose proof (N.div_mod' n 10). lia.
+      * apply N.div_lt_upper_bound; [lia|]. exact H.
+Qed.
+
+Lemma ascii_val_str_of_N n : ascii_val (str_of_N n) = n.
+Proof. apply ascii_val_digits, fuel_ok. Qed.
+
+Definition spec_ns (r : str) : str * str :=
+  match r with
+  | 47 :: _ => let '(a, b) := take_until 44 r in
+               (a, match b with Some x => x | None => [] end)
+  | _ => (s2l "/", r)
+  end.
+Definition spec_rest (loads : str -> Res pv) (t : Z) (natt : N) (r : str) : Res spec_packet :=
+  let '(ns, r) := spec_ns r in
+  let '(d, r) := take_digits r in
+  let id := match d with [] => None | _ => Some (Z.of_N (ascii_val d)) end in
+  data <- (match r with [] => Ok PNone | _ => loads r end) ;;
+  Ok (mkSpec t ns id data natt).
+
+Lemma spec_decode_eq loads c r :
+  spec_decode loads (c :: r) =
+  if negb (ascii_digit c && (c <=? 54)) then Err ValueError else
+  let t := Z.of_N (c - 48) in
+  '(natt, r) <- (if (t =? 5)%Z || (t =? 6)%Z then
+                   let '(d, rest) := take_digits r in
+                   match d, rest with
+                   | _ :: _, 45 :: rest' => Ok (ascii_val d, rest')
+                   | _, _ => Err ValueError
+                   end
+                 else Ok (0, r)) ;;
+  spec_rest loads t natt r.
+Proof. reflexivity. Qed.
+
+Lemma spec_ns_not_slash x r : x <> 47 -> spec_ns (x :: r) = (s2l "/", x :: r).
+Proof.
+  intro H. unfold spec_ns. destruct x as [|p]; [reflexivity|].
+  repeat (destruct p as [p|p|]; try reflexivity). exfalso; apply H; reflexivity.
+Qed.
+
+Lemma jstart_not_adigit x : jstart x -> adigit x = false.
+Proof.
+  intros [H _]. destruct (adigit x) eqn:E; [|reflexivity].
+  apply adigit_is_digit in E. congruence.
+Qed.
+
+Lemma js_ok_not_adigit js : js_ok js -> match js with [] => True | x :: _ => adigit x = false end.
+Proof. intros [->|(x & b & -> & Hx)]; [exact I|apply jstart_not_adigit, Hx]. Qed.
+
+Lemma ids_adigits id : id_ok id -> forallb adigit (ids_of id) = true.
+Proof.
+  destruct id as [i|]; [|reflexivity]. intros [H0 _]. cbn [ids_of].
+  rewrite str_of_Z_nonneg by exact H0. apply str_of_N_adigit.
+Qed.
+
+(* the namespace as the specification decoder reports it: no query stripping, "/" by default *)
+Definition sns_of (ns : option str) : str := match ns with Some s => s | None => s2l "/" end.
+
+Lemma spec_rest_frame loads t natt ns id js body :
+  ns_ok ns -> id_ok id -> js_ok js ->
+  (match js with [] => Ok PNone | _ => loads js end) = Ok body ->
+  spec_rest loads t natt (nsp_of ns ++ ids_of id ++ js) = Ok (mkSpec t (sns_of ns) id body natt).
+Proof.
+  intros Hns Hid Hjs Hl. unfold spec_rest.
+  assert (Hrest : spec_ns (ids_of id ++ js) = (s2l "/", ids_of id ++ js)).
+  { destruct (ids_of id) as [|c a] eqn:E.
+    - cbn [app]. destruct Hjs as [->|(x & b & -> & _ & _ & Hx)]; [reflexivity|]. apply spec_ns_not_slash, Hx.
+    - cbn [app]. apply spec_ns_not_slash. pose proof (ids_adigits id Hid) as Ha. rewrite E in Ha.
+      cbn [forallb] in Ha. apply andb_true_iff in Ha as [Hc _]. apply adigit_neq; [exact Hc|reflexivity]. }
+  assert (Hfin : forall nsx,
+    (let '(d, r) := take_digits (ids_of id ++ js) in
+     let id0 := match d with [] => None | _ => Some (Z.of_N (ascii_val d)) end in
+     data <- (match r with [] => Ok PNone | _ => loads r end) ;;
+     Ok (mkSpec t nsx id0 data natt)) = Ok (mkSpec t nsx id body natt)).
+  { intro nsx. rewrite take_digits_app; [|apply ids_adigits, Hid|apply js_ok_not_adigit, Hjs].
+    cbv zeta. rewrite Hl. cbn [bind]. destruct id as [i|]; [|reflexivity].
+    destruct Hid as [H0 _]. cbn [ids_of]. rewrite str_of_Z_nonneg by exact H0.
+    pose proof (str_of_N_nonnil (Z.to_N i)) as Hnn. pose proof (ascii_val_str_of_N (Z.to_N i)) as Hv.
+    destruct (str_of_N (Z.to_N i)); [contradiction|]. rewrite Hv, Z2N.id by exact H0. reflexivity. }
+  unfold nsp_of, sns_of. destruct ns as [s|].
+  - destruct Hns as (r & -> & Hr). destruct (str_eqb (47 :: r) [47]) eqn:E.
+    + apply str_eqb_eq in E. rewrite E. cbn [app]. rewrite Hrest. apply Hfin.
+    + rewrite <- app_assoc. cbn [app]. unfold spec_ns.
+      change (47 :: r ++ 44 :: ids_of id ++ js) with ((47 :: r) ++ 44 :: ids_of id ++ js).
+      rewrite take_until_app.
+      * apply Hfin.
+      * intros x [<-|Hx]; [discriminate|]. exact (existsb_eqb_false 44 r Hr x Hx).
+  - cbn [app]. rewrite Hrest. apply Hfin.
+Qed.
+
+Theorem spec_decode_nonbin loads t ns id js body : t <= 4 ->
+  ns_ok ns -> id_ok id -> js_ok js ->
+  (match js with [] => Ok PNone | _ => loads js end) = Ok body ->
+  spec_decode loads ((48 + t) :: nsp_of ns ++ ids_of id ++ js) =
+  Ok (mkSpec (Z.of_N t) (sns_of ns) id body 0).
+Proof.
+  intros Ht Hns Hid Hjs Hl. rewrite spec_decode_eq.
+  assert (E1 : negb (ascii_digit (48 + t) && (48 + t <=? 54)) = false) by (unfold ascii_digit; lia).
+  rewrite E1. cbv zeta. replace (48 + t - 48) with t by lia.
+  assert (E2 : ((Z.of_N t =? 5)%Z || (Z.of_N t =? 6)%Z) = false) by lia.
+  rewrite E2. cbn [bind]. apply spec_rest_frame; assumption.
+Qed.
+
+Theorem spec_decode_bin loads t n ns id js body : t = 5 \/ t = 6 ->
+  ns_ok ns -> id_ok id -> js_ok js ->
+  (match js with [] => Ok PNone | _ => loads js end) = Ok body ->
+  spec_decode loads ((48 + t) :: (str_of_N n ++ [45]) ++ nsp_of ns ++ ids_of id ++ js) =
+  Ok (mkSpec (Z.of_N t) (sns_of ns) id body n).
+Proof.
+  intros Ht Hns Hid Hjs Hl. rewrite spec_decode_eq.
+  assert (E1 : negb (ascii_digit (48 + t) && (48 + t <=? 54)) = false) by (unfold ascii_digit; lia).
+  rewrite E1. cbv zeta. replace (48 + t - 48) with t by lia.
+  assert (E2 : ((Z.of_N t =? 5)%Z || (Z.of_N t =? 6)%Z) = true) by lia.
+  rewrite E2. rewrite <- app_assoc. cbn [app].
+  rewrite take_digits_app; [|apply str_of_N_adigit|reflexivity].
+  pose proof (str_of_N_nonnil n) as Hnn. pose proof (ascii_val_str_of_N n) as Hv.
+  destruct (str_of_N n); [contradiction|]. rewrite Hv. cbn [bind].
+  apply spec_rest_frame; assumption.
 Qed.
